@@ -195,6 +195,14 @@ def gen_cases(ck):
             return "r:%s:%s" % (dhx(lo), dhx(hi))
         if r < 0.97:
             return "b:" + dhx(rng.choice([0.0, 1.0, 0.5, 0.1, 0.04, 0.9, 0.9999999999999999, 5e-324, rng.random()]))
+        if r < 0.99:
+            n = rng.choice([2, 2, 3, 4, 7])
+            ws = [rng.choice([1, 1, 5, 20, 100, 1000, rng.randint(1, 60)]) for _ in range(n)]
+            if rng.random() < 0.2:
+                ws[rng.randrange(n)] = 0            # an empty layer (the sum stays positive)
+                if not any(ws):
+                    ws[0] = 3
+            return "d:" + ",".join(map(str, ws))
         return "s"
     for i in range(30 * T):
         seed = rng.choice([0, 1, 2 ** 32 - 1]) if i < 3 else rng.getrandbits(32)
@@ -379,6 +387,12 @@ def predict_run_draws(ck, model, cmd, seed, transcript_bytes, limit):
             reqs.append("r:%s:%s" % (f[1], f[2])); exp.append("r:" + f[3])
         elif f[0] == "b":
             reqs.append("b:" + f[1]); exp.append("b:" + f[2])
+        elif f[0] == "d" and len(f) == 4:
+            n, v = int(f[1]), int(f[2])
+            if not 0 <= v < n:
+                ck.add_violation("pickup:layer-out-of-range", "`%s`: discrete draw %d for %d layers" % (cmd, v, n),
+                                 {"run": cmd, "draw": l.decode()})
+            reqs.append("d:" + f[3]); exp.append("d:" + sh(v))   # std::discrete_distribution over the logged layer sizes
         elif f[0] == "d":
             reqs.append("s"); exp.append("s")       # one engine output, value depends on weights that are not logged
         else:
@@ -639,6 +653,20 @@ def run(ck):
 
     nruns = double_runs(ck, exes, cfgs, model)
     ck.coverage["double_run_pairs"] = nruns
+    if not rp:
+        npick = 0
+        for sizes in [[5, 3, 9, 1], [10, 10], [1, 1, 1, 1, 1, 1, 1], [1000, 1], [3, 0, 4], [7, 20, 50, 2, 9]] + \
+                     [[ck.rng.randint(1, 40) for _ in range(ck.rng.randint(2, 6))] for _ in range(6 if ck.thorough else 2)]:
+            par = {"calls": 400 if ck.thorough else 120}
+            par.update({"s%d" % i: s for i, s in enumerate(sizes)})
+            seed = ck.rng.getrandbits(32)
+            rc0, a, e0, args = transcript(runner, "pickup", seed, par, 0)
+            cmd = " ".join(args[1:])
+            if rc0 != 0:
+                ck.add_violation("pickup:abort", "`%s` aborts (rc %d)" % (cmd, rc0), {"run": cmd, "stderr": e0[-1500:]})
+                continue
+            npick += predict_run_draws(ck, model, cmd, seed, a, 100000)
+        ck.coverage["pickup_draws_predicted_from_seed"] = npick
     timing_runs(ck, runner, tcfgs)
     inproc_runs(ck, runner, icfgs)
     ck.coverage["double_run_label"] = "TESTING (not proof): whole-run determinism on the listed configurations only"
